@@ -509,7 +509,7 @@ class _VersionIndependentUnmarshaller:
         if self.version_tuple >= (3, 8):
             co_posonlyargcount = (
                 0
-                if self.magic_int in (3400, 3401, 3410, 3411)
+                if self.magic_int in (3400, 3401)
                 else unpack("<i", self.fp.read(4))[0]
             )
         else:
